@@ -113,6 +113,12 @@ func c18RunIn(hist []c18Action, queries bool) vh.HistResult {
 			time.Sleep(2 * time.Second)
 		case "day":
 			time.Sleep(24 * time.Hour)
+		case "month": // to the same time on the next date with the same day of the month (a source quiet for a month or two)
+			t := now.AddDate(0, 0, 1)
+			for t.Day() != now.Day() {
+				t = t.AddDate(0, 0, 1)
+			}
+			time.Sleep(t.Sub(now))
 		case "eom": // to 23:59:59 of the last day of the month
 			eom := time.Date(now.Year(), now.Month()+1, 1, 0, 0, 0, 0, now.Location()).Add(-time.Second)
 			if !eom.After(now) {
@@ -285,7 +291,7 @@ func c18Alphabet(maxWrites, maxClock int, names []string) func(hist []c18Action)
 			out = append(out, c18Action{Op: "sent", Name: "a", Hash: "h1"}, c18Action{Op: "sent", Name: "ab", Hash: "h2"})
 		}
 		if c < maxClock {
-			out = append(out, c18Action{Op: "eod"}, c18Action{Op: "tick"}, c18Action{Op: "day"}, c18Action{Op: "eom"})
+			out = append(out, c18Action{Op: "eod"}, c18Action{Op: "tick"}, c18Action{Op: "day"}, c18Action{Op: "eom"}, c18Action{Op: "month"})
 		}
 		return out
 	}
@@ -328,5 +334,5 @@ func TestC18(t *testing.T) {
 		},
 	}
 	h.Explore()
-	rep.Bound = fmt.Sprintf("all histories of <=%d writes and <=%d clock moves (to 23:59:59, +2 s, +24 h, to month end), length <=%d; names %v, 2 hashes, with/without rename; in each distinct state: 2 logs x 5 names x {no hash,h1,h2} x 6 windows + Parse", maxW, maxC, depth, names)
+	rep.Bound = fmt.Sprintf("all histories of <=%d writes and <=%d clock moves (to 23:59:59, +2 s, +24 h, to month end, to the same day of the month one or two months on), length <=%d; names %v, 2 hashes, with/without rename; in each distinct state: 2 logs x 5 names x {no hash,h1,h2} x 6 windows + Parse", maxW, maxC, depth, names)
 }
